@@ -217,5 +217,8 @@ NoStarvation == \A t \in Tasks : (t \in woken /\ st[t] = "I" /\ cur # t) ~> (cur
 EmitState == IF cur = 0 /\ h # <<>> THEN PrintT(ToJson(h)) ELSE TRUE
 \* for the larger configurations: one line per distinct stalled state (a run
 \* of a whole task system to quiescence)
+\* as an ACTION_CONSTRAINT: one line per TRANSITION of the graph (also those
+\* into states already seen), i.e. every (state, action) pair is replayed
+EmitTrans == IF Hist THEN PrintT(ToJson(h')) ELSE TRUE
 EmitStalled == IF stl /\ h # <<>> THEN PrintT(ToJson(h)) ELSE TRUE
 =============================================================================
